@@ -16,8 +16,16 @@ fn temp_dir(tag: &str) -> PathBuf {
 }
 
 fn metric(i: usize, len: usize) -> String {
+    // starts with a two-byte character when there is room, so that byte length and character count differ
     let c = (b'a' + (i % 26) as u8) as char;
-    std::iter::repeat(c).take(len.max(1)).collect()
+    let len = len.max(1);
+    if len >= 3 {
+        let mut s = String::from("\u{e9}");
+        s.extend(std::iter::repeat(c).take(len - 2));
+        s
+    } else {
+        std::iter::repeat(c).take(len).collect()
+    }
 }
 
 pub fn replay(sc: &Value) -> Value {
